@@ -127,3 +127,95 @@ def run(facts, rep):
         rep.indet('E28: make_rmod_str outside the recognised fragment: %s' % e)
         return
     rep.floor('E28 (rank, torsion) cases', n, 8)
+
+
+def check_cell_placement(facts, rep):
+    """S4: a group is printed in the cell of its own bidegree. DisplayTable<isize2>::display_table hands
+    format::table the rows = second index components (descending), the columns = first index components (ascending)
+    and an entry function (row j, column i) -> self.get(isize2(i, j)) - `.` only when the string equals the default's;
+    format::table calls entry(row item, column item) for every row and every column. A transposed index or a swapped
+    argument order passes every test (none compares a rendered table)."""
+    DT = 'yui_homology::<G as grid::grid::DisplayTable<grid::grid_deg::isize2>>::display_table'
+    TB = 'yui::util::format::table'
+    b = facts.bodies.get(DT)
+    t = facts.bodies.get(TB)
+    if not (b and t):
+        rep.indet('E28.S4: display_table / format::table not found')
+        return
+    rep.saw(b)
+    rep.saw(t)
+
+    def dk(x):
+        return re.sub(r'\^_ref__', '^', sk(x)).replace('&', '').replace('*', '')
+
+    def clo_rets(owner, term):
+        term = strip(term)
+        cb = facts.bodies.get(term[1]) if term[0] == 'closure' else None
+        if cb is None:
+            return None
+        return sorted({(dk(p.ret), tuple((dk(e.term), e.value != 0) for e in p.branches())) for p in SymEx(cb).run() if p.end == 'return'})
+    rets = [p.ret for p in SymEx(b).run() if p.end == 'return']
+    inst = 'display_table|entry(row j, col i) = get((i, j)); rows = j descending, cols = i ascending'
+    if len(rets) != 1 or strip(rets[0])[0] != 'call' or strip(rets[0])[1].split('::')[-1] != 'table' or len(strip(rets[0])[2]) != 4:
+        rep.indet('E28.S4: display_table does not end in format::table(head, rows, cols, entry)')
+        return
+    head, rows, cols, entry = strip(rets[0])[2]
+
+    def axis(term):
+        """rev?(sorted(unique(map(support(self), closure)))) -> (component, descending)"""
+        s = strip(term)
+        desc = False
+        names = []
+        while s[0] == 'call' and s[1].split('::')[-1] in ('rev', 'sorted', 'unique', 'dedup'):
+            names.append(s[1].split('::')[-1])
+            s = strip(s[2][0])
+        if 'rev' in names:
+            desc = True
+        if not (s[0] == 'call' and s[1].split('::')[-1] == 'map' and dk(s[2][0]) == 'support(arg1)'):
+            return None
+        cr = clo_rets(b, s[2][1])
+        if not cr or len(cr) != 1:
+            return None
+        m = re.match(r'arg2\.([01])$', cr[0][0])
+        return (int(m.group(1)), desc, 'sorted' in names) if m else None
+    ra, ca = axis(rows), axis(cols)
+    er = clo_rets(b, entry)
+    probs = []
+    if ra is None or ca is None or not er:
+        rep.indet('E28.S4: display_table outside the recognised fragment (rows %s, cols %s)' % (ra, ca))
+        return
+    if ra != (1, True, True):
+        probs.append('rows are the index component %d, %s' % (ra[0], 'descending' if ra[1] else 'ascending'))
+    if ca != (0, False, True):
+        probs.append('columns are the index component %d, %s' % (ca[0], 'descending' if ca[1] else 'ascending'))
+    cells = {r[0] for r in er}
+    want = {'to_string(get(arg1.^self, isize2::isize2{0: arg3, 1: arg2}))', 'to_string(".")'}
+    if cells != want:
+        if any(re.match(r'to_string\(get\(arg1\.\^self, isize2::isize2\{0: arg[23], 1: arg[23]\}\)\)$', c) for c in cells):
+            probs.append('the entry for (row, column) reads %s: with rows = j and columns = i the cell must show get(isize2(column, row))' % sorted(cells - {'to_string(".")'}))
+        else:
+            rep.indet('E28.S4: entry closure returns %s' % sorted(cells))
+            return
+    # format::table: entry(row item, col item)
+    call_shapes = set()
+    for k, cb in facts.bodies.items():
+        if k.startswith(TB + '::{closure'):
+            for p in SymEx(cb).run():
+                for e in p.calls():
+                    if e.name.split('::')[-1] == 'call' and len(e.args) == 2 and dk(e.args[0]) == 'arg1.^entry':
+                        call_shapes.add(dk(e.args[1]))
+    loop_src = set()
+    for p in SymEx(t, havoc_loops=True, max_paths=5000).run():
+        for e in p.calls():
+            if e.name.split('::')[-1] == 'row' and len(e.args) == 2 and 'next(' in dk(e.args[0]):
+                loop_src.add(re.sub(r'mut _\d+', 'IT', dk(e.args[1])))
+    if call_shapes != {'(arg1.^i, arg2)'} or loop_src != {'map(iter(deref(collect_vec(arg3))), closure<{closure#1}>)'}:
+        if call_shapes == {'(arg2, arg1.^i)'}:
+            probs.append('format::table calls entry(column, row)')
+        else:
+            rep.indet('E28.S4: format::table outside the recognised fragment: %s / %s' % (call_shapes, loop_src))
+            return
+    if probs:
+        rep.violation('E28.S4-cell-placement', inst, '; '.join(probs) + ': groups are printed in the wrong (i, j) cells', where=b.where())
+    else:
+        rep.ok('E28.S4-cell-placement', inst, 'get(isize2(col, row)); table calls entry(row, col) for all rows x cols')
